@@ -104,8 +104,11 @@ def build_history(seed: int, batch: int, w: int, targets: dict, ref_steps: dict,
             elif r < 0.30 + cfg["resalt"] * 4 and salted:
                 ops.append({"op": "resalt", "A": rng.randrange(2**64)})
             elif r < 0.55 + cfg["abort"] * 2:
-                ta = rng.choice(tids)
-                steps = max(2, int(ref_steps.get(ta) or 2000))
+                # abort preferably where fresh names are generated: what an aborted call leaves behind shows
+                # itself mostly through the names the next call has to invent
+                namegen = [t for t in tids if ref_steps.get(("names", t))]
+                ta = rng.choice(namegen) if namegen and rng.random() < 0.6 else rng.choice(tids)
+                steps = max(2, int(ref_steps.get(ta) or 2000))  # noqa
                 if rng.random() < 0.5:
                     j = rng.randrange(1, steps + 1)
                 else:  # log-uniform: early positions (normalisation, first passes) get their share
@@ -321,6 +324,13 @@ def run(args) -> int:
         census_res = res[len(jobs) :]
         for bt, r in zip(batches, res):
             bt["ref_steps"] = {e["t"]: e.get("steps") for e in r["events"] if e.get("op") == "opt"}
+            seen_text = {}
+            for e in r["events"]:
+                if e.get("op") == "opt":
+                    if "text" in e:
+                        seen_text[e["outcome"]] = e["text"]
+                    txt = seen_text.get(e["outcome"], "")
+                    bt["ref_steps"][("names", e["t"])] = ("AUX" in txt) or ("__" in txt)
             table.add_events({"b": bt["b"], "w": 0, "world": dict(PRISTINE), "pristine": True}, r["events"], bt["targets"], pristine_fp)
             bt["jobs"] = {0: jobs[bt["b"]]}
         log(f"phase 1 done: {len(jobs)} pristine workers, {table.calls} calls, {timer.wall():.0f}s")
